@@ -1,5 +1,7 @@
 package corpus
 
+import "fmt"
+
 // KitchenSink is the hand-written schema set that puts every constructor in every position the
 // properties name.  Package root is filled in by the caller.
 func KitchenSink(packageRoot string) *Schema {
@@ -28,6 +30,22 @@ func KitchenSink(packageRoot string) *Schema {
 		Def("b", P("bool"), "true"), Def("s", P("string"), `"a\"b\\c\né"`), Def("by", P("bytes"), `"\u0001\u007fÿ"`), Def("es", P("string"), `""`))
 	rec("Leaf", nil, F("s", P("string")), Def("n", P("int32"), "7"))
 	// nothing required at the top, required fields only below: who raises the missing-fields error?
+	// more required fields than fit a machine word (bookkeeping by bit mask), with optional ones in between
+	{
+		var fs []Field
+		for i := 0; i < 70; i++ {
+			switch {
+			case i%23 == 11:
+				fs = append(fs, Opt(fmt.Sprintf("o%02d", i), P("string")))
+			case i%2 == 0:
+				fs = append(fs, F(fmt.Sprintf("w%02d", i), P("int32")))
+			default:
+				fs = append(fs, F(fmt.Sprintf("w%02d", i), P("string")))
+			}
+		}
+		fs = append(fs, F("wlast", R(q("Leaf"))))
+		rec("Wide", nil, fs...)
+	}
 	rec("AllOpt", nil, Opt("leaf", R(q("Leaf"))), Opt("leaves", A(R(q("Leaf")))), Opt("byName", M(R(q("Leaf")))), Opt("note", P("string")))
 	s.Add(&TypeDef{Kind: "union", Name: "U", Namespace: ns, Members: []Member{
 		{"int", P("int32")}, {"long", P("int64")}, {"float", P("float32")}, {"double", P("float64")}, {"boolean", P("bool")}, {"string", P("string")}, {"bytes", P("bytes")},
@@ -53,7 +71,8 @@ func KitchenSink(packageRoot string) *Schema {
 		Def("dcol", R(q("Color")), `"GREEN"`), Def("dfx", R(q("F4")), `"abÿd"`), Def("dtr", R(q("TString")), `"t"`), Def("dti", R(q("TInt64")), `-5`),
 		Def("dleaf", R(q("Leaf")), `{"s":"x"}`), Def("du", R(q("U")), `{"int":5}`), Def("dul", R(q("U")), `{"ks.kt.Leaf":{"s":"in union"}}`),
 		Def("dal", A(R(q("Leaf"))), `[{"s":"a"},{"s":"b","n":1}]`), Def("dea", A(P("int32")), `[]`), Def("dem", M(P("string")), `{}`), Def("dm", M(A(P("int32"))), `{"k":[1,2],"":[]}`),
-		Def("das", A(P("string")), `["","a,b","(c)"]`), Def("df", P("float64"), `-0.0000001`), Def("dbl", P("bool"), `false`), F("req", P("string")))
+		Def("das", A(P("string")), `["","a,b","(c)"]`), Def("df", P("float64"), `-0.0000001`), Def("dbl", P("bool"), `false`), F("req", P("string")),
+		OptDef("ods", P("string"), `"optional with default"`), OptDef("odl", A(P("int32")), `[3,1,2]`), OptDef("odr", R(q("Leaf")), `{"s":"od"}`))
 	rec("NestedDefaults", nil, F("d", R(q("Defaults"))), Opt("od", R(q("Defaults"))), F("ad", A(R(q("Defaults")))), F("leaf", R(q("Leaf"))))
 	rec("Keywords", nil, F("type", P("string")), Opt("func", P("int32")), F("_under", P("bool")), F("a$b", P("string")), F("Go", P("int32")), F("x_1", P("string")), Opt("map", M(P("string"))), Opt("range", A(P("int32"))))
 	rec("Recursive", nil, F("v", P("int32")), Opt("next", R(q("Recursive"))), F("kids", A(R(q("Recursive")))), Opt("byName", M(R(q("Recursive")))))
